@@ -208,6 +208,13 @@ func (sr *StreamReader) ReadBinary() ([]byte, error) {
 		return nil, decodeErrorf("negative length %v specified for binary field", length)
 	}
 
+	return sr.readBytes(length)
+}
+
+// readBytes reads exactly length bytes off the wire. Buffers larger than
+// bytesAllocThreshold are grown as the data arrives rather than allocated up
+// front based on the declared length.
+func (sr *StreamReader) readBytes(length int32) ([]byte, error) {
 	if length == 0 {
 		return []byte{}, nil
 	}
@@ -224,7 +231,7 @@ func (sr *StreamReader) ReadBinary() ([]byte, error) {
 	}
 
 	bs := make([]byte, length)
-	_, err = sr.read(bs)
+	_, err := sr.read(bs)
 	return bs, err
 }
 
